@@ -99,6 +99,9 @@ const (
 	WrapNo   = 0
 	WrapNew  = 1 // a fresh wrapper
 	WrapSame = 2 // (after-init only) the wrapper handed out as early reference, if any; else fresh
+	// WrapUnlessEarly (after-init only): the auto-proxy idiom - a component that was already proxied when its
+	// early reference was requested is returned unchanged, every other one is wrapped now.
+	WrapUnlessEarly = 3
 )
 
 type WrapPlan struct{ Early, Before, After int }
@@ -146,6 +149,14 @@ func (w *WrapPP) PostProcessAfterInitialization(c any, name string) (any, error)
 	case WrapNew:
 		if x, isW := c.(*zoo.W); isW {
 			c = x.Target
+		}
+		return w.mk(c, name, "after"), nil
+	case WrapUnlessEarly:
+		if w.EarlyW[name] != nil {
+			return c, nil
+		}
+		if _, isW := c.(*zoo.W); isW {
+			return c, nil
 		}
 		return w.mk(c, name, "after"), nil
 	case WrapSame:
